@@ -229,7 +229,37 @@ class Desugar(ast.NodeTransformer):
 
     def visit_If(self, node):
         self.generic_visit(node)
+        return self._if_walrus(node)
+
+    def _if_walrus(self, node):
+        """Leading walrus of the test hoisted; a walrus in a later conjunct
+        of `A and B(w := E) and C` splits the test where it is evaluated:
+            if A:
+                w = E
+                if B(w) and C: BODY
+                else: ORELSE
+            else: ORELSE"""
         hoisted = _hoist_walrus(node, "test")
+        t = node.test
+        if isinstance(t, ast.BoolOp) and isinstance(t.op, ast.And):
+            k = next((i for i, v in enumerate(t.values) if i > 0 and any(
+                isinstance(x, ast.NamedExpr) for x in ast.walk(v))), None)
+            if k is not None and not any(
+                    isinstance(x, ast.NamedExpr)
+                    for v in t.values[:k] for x in ast.walk(v)):
+                head = t.values[:k]
+                tail = t.values[k:]
+                import copy
+                inner = ast.copy_location(ast.If(
+                    tail[0] if len(tail) == 1 else ast.BoolOp(ast.And(),
+                                                              tail),
+                    node.body, copy.deepcopy(node.orelse)), node)
+                inner_r = self._if_walrus(inner)
+                node.test = head[0] if len(head) == 1 else ast.BoolOp(
+                    ast.And(), head)
+                node.body = inner_r if isinstance(inner_r, list) else [
+                    inner_r]
+                ast.fix_missing_locations(node)
         return hoisted + [node] if hoisted else node
 
     def _simple(self, node, fld="value"):
